@@ -11,9 +11,6 @@ import (
 
 	"pgregory.net/rapid"
 
-	sdk "github.com/cosmos/cosmos-sdk/types"
-
-	"github.com/bandprotocol/chain/v3/pkg/tickmath"
 	"github.com/bandprotocol/chain/v3/x/bandtss"
 	bandtsstypes "github.com/bandprotocol/chain/v3/x/bandtss/types"
 	feedstypes "github.com/bandprotocol/chain/v3/x/feeds/types"
@@ -170,6 +167,14 @@ func genOrig(rt *rapid.T) c11Orig {
 }
 
 func genSignalID(rt *rapid.T) string {
+	id := genSignalIDRaw(rt)
+	if len(id) > 0 && id[0] == 0 && pbt.IsExcluded("C11", sigLeadingNul) {
+		id = "|" + id[1:]
+	}
+	return id
+}
+
+func genSignalIDRaw(rt *rapid.T) string {
 	k := gen.Pick(rt, "sid-kind", 45, 20, 15, 10, 8, 2)
 	switch k {
 	case 0:
@@ -184,9 +189,6 @@ func genSignalID(rt *rapid.T) string {
 		return clip(rapid.StringOfN(rapid.SampledFrom(runesWide), 1, 10, -1).Draw(rt, "sid-wide"), 32)
 	default:
 		// ids that begin with the padding byte; see the report (genuine ambiguity of the bytes32 encoding)
-		if pbt.IsExcluded("C11", sigLeadingNul) {
-			return "CS:BTC-USD"
-		}
 		return "\x00" + gen.OneOf(rt, "sid-nul", "CS:BTC-USD", "A", "\x00B")
 	}
 }
@@ -543,6 +545,12 @@ func runC11Enc(c c11EncCase) *pbt.Verdict {
 
 	a, err := execute(e, c)
 	if err != nil {
+		if hasLeadingNul(cc.Prices) {
+			// a signal id that starts with a zero byte has no injective left-padded bytes32 form; refusing to
+			// encode it is the sound outcome (encoding it anyway is flagged below as C11/signalid-leading-nul)
+			v.Class("signal-leading-nul-refused")
+			return v
+		}
 		v.Failf("C11/encode-error", "a valid request could not be encoded: %v", err)
 		return v
 	}
@@ -825,6 +833,3 @@ func head(b []byte, n int) []byte {
 }
 
 func TestC11Encode(t *testing.T) { pbt.Check(t, "C11", genC11Enc, runC11Enc) }
-
-var _ = sdk.Context{}
-var _ = tickmath.MaxTick
